@@ -37,9 +37,13 @@ type c16Session struct {
 	After    bool // cut right after forwarding the message instead of before it
 	Silent   bool // instead of closing, the peer goes silent at that message (client built with the inactivity check)
 	Leader   int  // >0: leader-only session with two servers; leadership moves at step boundary Leader (and back Cut2 steps later if Cut2>=0); Away bit 0 = endpoint order
+	Late     bool // a transaction is committed while the first restarted monitor is parked between its reply and the cache
 }
 
 func (s c16Session) String() string {
+	if s.Late {
+		return fmt.Sprintf("method=%s monitors=%d away=%03b cut=conn%d/msg%d, a transaction committed while the restarted monitor is parked after its reply", s.Method, s.Monitors, s.Away, s.CutConn, s.Cut)
+	}
 	if s.Leader > 0 {
 		return fmt.Sprintf("method=%s monitors=%d leader-only client, two servers (endpoint order %d); leadership moves at step boundary %d, back %d steps later (-1 = never)", s.Method, s.Monitors, s.Away&1, s.Leader, s.Cut2)
 	}
@@ -269,6 +273,8 @@ func c16Run(r *ev.Run, s c16Session, record bool) (msgs []e2e.Msg) {
 	}
 	c := e2e.NewClient(dbs, px.Sock, opt)
 	defer c.Close()
+	pz := e2e.NewPauser(c)
+	defer pz.Detach(c)
 	ctx, cancel := context.WithTimeout(context.Background(), 20*time.Second)
 	defer cancel()
 	registered := 0 // monitors the client has registered successfully
@@ -340,7 +346,22 @@ func c16Run(r *ev.Run, s c16Session, record bool) (msgs []e2e.Msg) {
 							}
 						}
 					}
-					px.SetAccept(true)
+					if s.Late && registered > 0 {
+						// the first monitor restarted on the new connection is parked between its reply and the cache; a transaction
+						// committed meanwhile is notified on the new connection and has to survive the resynchronisation
+						arrived := pz.Hold("monitor:reply")
+						px.SetAccept(true)
+						select {
+						case <-arrived:
+							r.Add("late_transactions_during_monitor_restart", 1)
+							lateOps := []rm.Op{opUpdate("R", uR[0], rm.Row{"imm": rm.SetOf(rm.S(""))}), opUpdate("R", uR[0], rm.Row{"name": rm.SetOf(rm.S("late"))}), opInsert("PR", uu("4", 8), rm.Row{"name": rm.SetOf(rm.S("late-row"))}), opUpdate("N1", uN1[1], rm.Row{"name": rm.SetOf(rm.S("late-n1"))})}
+							_, _ = txn(lateOps)
+						case <-time.After(5 * time.Second):
+						}
+						pz.Release("monitor:reply")
+					} else {
+						px.SetAccept(true)
+					}
 				}
 			default:
 				drained = true
@@ -620,6 +641,12 @@ func runC16(r *ev.Run) {
 					if r.Tier == "thorough" {
 						sessions = append(sessions, c16Session{Method: m, Monitors: nm, Away: aw, Cut: k, Cut2: -1, After: true})
 					}
+				}
+			}
+			// a transaction committed between the restarted monitor's reply and its application to the cache
+			for k := 0; k < n; k++ {
+				if r.Tier == "thorough" || k%3 == nm%3 {
+					sessions = append(sessions, c16Session{Method: m, Monitors: nm, Away: 7, Cut: k, Cut2: -1, Late: true})
 				}
 			}
 			// silent peer: from message k on nothing reaches the client any more
